@@ -19,7 +19,7 @@ def check(ctx):
     errors.r14_stopiteration_drivers(ctx)
     # the commit point is reached only when every stream was read to its end: the driver must stop pulling at the first failure
     # (a handler inside the driver that goes on to the next resource lets the writer upstream run to its rename / copy)
-    errors.r14_err_discipline(ctx, rule='R14', include=lambda m: m.name == 'dataflows.base.datastream_processor', floor=1)
+    errors.r14_err_discipline(ctx, rule='R14', include=lambda m: m.name == 'dataflows.base.datastream_processor' or m.name.startswith('dataflows.processors.dumpers'), floor=1)
     # each yielded stream is the one produced by process_resource (so that the file is finished when the stream ends)
     rls = [rl for rl in find_resloops(repo, res, pr, [pr.params[1]]) if rl.kind == 'for']
     facts = Facts(pr, include_nested=False)
